@@ -334,6 +334,29 @@ func sysexSpace(part, parts int) {
 			}
 		}
 	}
+	// every length: F0, n data bytes (n = 0..1100, thorough ..20000; three
+	// contents), with and without the closing F7 (whatever is shown of a long
+	// message is cut or copied somewhere)
+	maxN := ctx.Pick(1100, 20000)
+	for n := part; n <= maxN; n += parts {
+		for _, fill := range []int{0x00, 0x7F, -1} {
+			b := make([]byte, 0, n+2)
+			b = append(b, 0xF0)
+			for i := 0; i < n; i++ {
+				if fill < 0 {
+					b = append(b, byte(i*11+n)&0x7F)
+				} else {
+					b = append(b, byte(fill))
+				}
+			}
+			judgeMidi(b[:n+1 : n+1])
+			judgeSMF(b[:n+1 : n+1])
+			b = append(b, 0xF7)
+			judgeMidi(b)
+			judgeSMF(b)
+			ctx.Add("sysex_lengths", 2)
+		}
+	}
 	if part != 0 {
 		return
 	}
